@@ -365,14 +365,27 @@ pub struct Rep {
     samples: Vec<Value>,
     sample_seen: u64,
     viol_counts: BTreeMap<String, u64>,
+    viol_flush: BTreeMap<String, u64>,
     pub cur_stage: String,
     pub cur_idx: u64,
     sample_rng: Rng,
+    journal: Option<File>,
+    cur_ord: usize,
+    cur_name: String,
+    hashes_path: Option<String>,
+    hashes_written: HashSet<u64>,
+    last_flush_evals: u64,
 }
 
 impl Rep {
-    fn new(prop: &str, out: File, seed: u64) -> Rep {
+    fn new(prop: &str, out: File, seed: u64, journal: Option<File>, hashes_path: Option<String>) -> Rep {
         Rep {
+            journal,
+            cur_ord: 0,
+            cur_name: String::new(),
+            hashes_path,
+            hashes_written: HashSet::new(),
+            last_flush_evals: 0,
             prop: prop.to_string(),
             out,
             evals: 0,
@@ -383,6 +396,7 @@ impl Rep {
             samples: Vec::new(),
             sample_seen: 0,
             viol_counts: BTreeMap::new(),
+            viol_flush: BTreeMap::new(),
             cur_stage: String::new(),
             cur_idx: 0,
             sample_rng: Rng::new(seed ^ 0x5a5a),
@@ -392,6 +406,7 @@ impl Rep {
     /// Record a violation. `sig` is the class key (sub-check + failing class), `detail` says what
     /// was observed vs expected, `case` is the fully rendered case.
     pub fn viol(&mut self, sig: &str, detail: &str, case: Value) {
+        *self.viol_flush.entry(sig.to_string()).or_insert(0) += 1;
         let n = self.viol_counts.entry(sig.to_string()).or_insert(0);
         *n += 1;
         if *n <= 3 {
@@ -449,18 +464,44 @@ impl Rep {
         let _ = writeln!(self.out, "{}", rec);
     }
 
-    fn finish(&mut self, hashes_path: Option<&str>) {
-        let viols: BTreeMap<&String, &u64> = self.viol_counts.iter().collect();
-        let rec = json!({"t":"stat","prop":self.prop,"evaluations":self.evals,
+    fn journal_write(&mut self, ord: usize, name: &str, idx: u64, label: &str) {
+        if let Some(j) = &self.journal {
+            let lab: String = label.chars().filter(|c| !c.is_whitespace()).take(40).collect();
+            let s = format!("{} {} {} {}", ord, name, idx, lab);
+            let mut buf = [b' '; 128];
+            let n = s.len().min(127);
+            buf[..n].copy_from_slice(&s.as_bytes()[..n]);
+            buf[127] = b'\n';
+            let _ = j.write_at(&buf, 0);
+        }
+    }
+
+    /// Label the running case in the journal (so that a crash can be attributed to a class).
+    pub fn mark(&mut self, label: &str) {
+        let (o, n, i) = (self.cur_ord, self.cur_name.clone(), self.cur_idx);
+        self.journal_write(o, &n, i, label);
+    }
+
+    /// Write the counters accumulated since the last flush (the driver sums all stat records, so
+    /// what was observed before a crash is not lost) and append new distinct-case hashes.
+    pub fn flush(&mut self) {
+        let viols = std::mem::take(&mut self.viol_flush);
+        let rec = json!({"t":"stat","prop":self.prop,"evaluations":self.evals - self.last_flush_evals,
             "distinct_nontrivial":self.nontrivial,"counters":self.counters,
             "samples":self.samples,"viol_counts":viols});
+        self.last_flush_evals = self.evals;
+        self.counters.clear();
+        self.samples.clear();
+        self.sample_seen = 0;
         let _ = writeln!(self.out, "{}", rec);
         let _ = self.out.flush();
-        if let Some(p) = hashes_path {
-            if let Ok(mut f) = File::create(p) {
-                let mut buf = Vec::with_capacity(self.hashes.len() * 8);
+        if let Some(p) = &self.hashes_path {
+            if let Ok(mut f) = std::fs::OpenOptions::new().create(true).append(true).open(p) {
+                let mut buf = Vec::new();
                 for h in &self.hashes {
-                    buf.extend_from_slice(&h.to_le_bytes());
+                    if self.hashes_written.insert(*h) {
+                        buf.extend_from_slice(&h.to_le_bytes());
+                    }
                 }
                 let _ = f.write_all(&buf);
             }
@@ -480,10 +521,9 @@ pub struct Ctx {
     pub only: Option<(usize, u64)>,
     pub resume: Option<(usize, u64)>,
     pub args: Vec<String>,
-    journal: Option<File>,
-    hashes_path: Option<String>,
     pub rep: Rep,
     stage_ord: usize,
+    flush_each: bool,
 }
 
 impl Ctx {
@@ -521,10 +561,9 @@ impl Ctx {
             only,
             resume,
             args,
-            journal: j,
-            hashes_path: hashes.map(|s| s.to_string()),
-            rep: Rep::new(prop, outf, seed),
+            rep: Rep::new(prop, outf, seed, j, hashes.map(|s| s.to_string())),
             stage_ord: 0,
+            flush_each: false,
         }
     }
 
@@ -545,15 +584,15 @@ impl Ctx {
         self.args.iter().any(|a| a == name)
     }
 
-    fn journal_write(&mut self, ord: usize, name: &str, idx: u64) {
-        if let Some(j) = &self.journal {
-            let s = format!("{} {} {}", ord, name, idx);
-            let mut buf = [b' '; 96];
-            let n = s.len().min(95);
-            buf[..n].copy_from_slice(&s.as_bytes()[..n]);
-            buf[95] = b'\n';
-            let _ = j.write_at(&buf, 0);
-        }
+    /// like `stage`, but counters are flushed after every case (for stages whose cases may kill
+    /// the process)
+    pub fn stage_each<F>(&mut self, name: &str, total: u64, seeded: bool, f: F)
+    where
+        F: FnMut(u64, &mut Rng, &mut Rep),
+    {
+        self.flush_each = true;
+        self.stage(name, total, seeded, f);
+        self.flush_each = false;
     }
 
     /// Run the cases `0..total` of a stage that belong to this shard. Every case gets its own PRNG
@@ -580,6 +619,8 @@ impl Ctx {
             }
         }
         self.rep.cur_stage = format!("{}:{}", ord, name);
+        self.rep.cur_ord = ord;
+        self.rep.cur_name = name.to_string();
         let stage_h = hash_str(name) ^ hash_str(&self.prop);
         let seed = if seeded { self.seed } else { 0 };
         let mut idx = start;
@@ -590,8 +631,8 @@ impl Ctx {
         }
         if let Some((_, only_idx)) = self.only {
             if only_idx < total {
-                self.journal_write(ord, name, only_idx);
                 self.rep.cur_idx = only_idx;
+                self.rep.journal_write(ord, name, only_idx, "");
                 let mut rng = Rng::new(mix(&[seed, stage_h, only_idx]));
                 f(only_idx, &mut rng, &mut self.rep);
             }
@@ -599,19 +640,25 @@ impl Ctx {
         }
         let mut ran = 0u64;
         while idx < total {
-            self.journal_write(ord, name, idx);
             self.rep.cur_idx = idx;
+            self.rep.journal_write(ord, name, idx, "");
             let mut rng = Rng::new(mix(&[seed, stage_h, idx]));
             f(idx, &mut rng, &mut self.rep);
             ran += 1;
             idx += self.nshards;
+            if self.flush_each {
+                self.rep.add(&format!("stage_cases/{}", name), 1);
+                self.rep.flush();
+            }
         }
-        self.rep.add(&format!("stage_cases/{}", name), ran);
-        self.journal_write(ord + 1, "-between-stages-", 0);
+        if !self.flush_each {
+            self.rep.add(&format!("stage_cases/{}", name), ran);
+        }
+        self.rep.flush();
+        self.rep.journal_write(ord + 1, "-between-stages-", 0, "");
     }
 
     pub fn finish(mut self) {
-        let hp = self.hashes_path.clone();
-        self.rep.finish(hp.as_deref());
+        self.rep.flush();
     }
 }
